@@ -98,6 +98,36 @@ fn check_shuffle(s: u64, len: usize, buf: &mut Vec<usize>) -> Option<(String, St
     }
 }
 
+/// shuffle on a vector with repeated entries (labels, bootstrap indices, a constant vector): the
+/// result must hold the same multiset of elements and the call must not panic.
+fn check_shuffle_repeats(s: u64, len: usize) -> Option<(String, String)> {
+    for kind in 0..3usize {
+        let input: Vec<usize> = (0..len).map(|i| match kind {
+            0 => i % 3,
+            1 => 7,
+            _ => (i * i) % (len / 2 + 1),
+        }).collect();
+        let mut v = input.clone();
+        let r = guard(|| {
+            let mut g = Generator::create(s);
+            g.shuffle(&mut v);
+            v
+        });
+        match r {
+            Err(m) => return Some((format!("shuffle:repeats:panic:{}", classify_panic(&m)), format!("Generator::create({}).shuffle of {} elements with repeated values panicked: {}", s, len, short(&m, 160)))),
+            Ok(v) => {
+                let (mut a, mut b) = (input.clone(), v.clone());
+                a.sort();
+                b.sort();
+                if a != b {
+                    return Some(("shuffle:repeats:not-a-permutation".into(), format!("seed {} len {}: the shuffled vector does not hold the multiset of the input", s, len)));
+                }
+            }
+        }
+    }
+    None
+}
+
 fn sweep(range: impl Iterator<Item = u64>, key: String) -> Out {
     let mut out = Out::new(key);
     let mut sigs: Vec<String> = Vec::new();
@@ -169,7 +199,7 @@ impl Monitor for C18 {
         }
     }
     fn rule(&self) -> &'static str {
-        "states_*: one case per chunk of seeds s; create(s) + one draw visits generator state 48271*s mod m (a bijection on [1,m-1]); per state: generate() over a 12-pair (min,max) panel (incl. two intervals whose width overflows f32) must be finite and in [min,max], shuffle(len 1) and shuffle(len 2..6) must return a permutation without panicking, states whose unit draw is >= 0.999999 are swept over every len 1..200; distinct = number of distinct states visited. seeds: seed classes (0, 1, small, around m, multiples of m, 2^32, >3.8e14, u64::MAX, timestamps) x lengths 0..200: no panic, permutation, purity (same seed twice; same seed while a second generator draws and shuffles in between). clock: Tensor::random's possible clock seeds (subsec_micros in [0,1e6)) replayed through Generator for 256 draws. tensor_random: Tensor::random itself for every rank; every third request follows a request for a shape the library refuses (rank 5 / nested), which must not disturb it."
+        "states_*: one case per chunk of seeds s; create(s) + one draw visits generator state 48271*s mod m (a bijection on [1,m-1]); per state: generate() over a 12-pair (min,max) panel (incl. two intervals whose width overflows f32) must be finite and in [min,max], shuffle(len 1) and shuffle(len 2..6) must return a permutation without panicking, states whose unit draw is >= 0.999999 are swept over every len 1..200; distinct = number of distinct states visited. seeds: seed classes (0, 1, small, around m, multiples of m, 2^32, >3.8e14, u64::MAX, timestamps) x lengths 0..200: no panic, permutation (index vectors; vectors with repeated entries: same multiset), purity (same seed twice; same seed while a second generator draws and shuffles in between). clock: Tensor::random's possible clock seeds (subsec_micros in [0,1e6)) replayed through Generator for 256 draws. tensor_random: Tensor::random itself for every rank; every third request follows a request for a shape the library refuses (rank 5 / nested), which must not disturb it."
     }
     fn assumptions(&self) -> Vec<&'static str> {
         vec![
@@ -218,6 +248,15 @@ impl Monitor for C18 {
                         out.viol("shuffle:not-pure", format!("seed {} len {}: two runs differ", s, len), J::Null);
                     }
                 }
+                for len in [0usize, 1, 2, 3, 5, 8, 20, 21, 33, 64, 200] {
+                    if let Some((sig, what)) = check_shuffle_repeats(s, len) {
+                        if !sigs.contains(&sig) {
+                            sigs.push(sig.clone());
+                            out.viol(&sig, what, J::obj().set("seed", J::s(&s.to_string())).set("len", J::Int(len as i64)));
+                        }
+                    }
+                }
+                out.count("shuffles_of_vectors_with_repeated_entries", 33);
                 let pure = guard(|| {
                     let mut a = Generator::create(s);
                     let mut b = Generator::create(s);
